@@ -193,7 +193,9 @@ pub fn gen_getvalues_body(cx: &mut Ctx, max_pair: usize) -> Vec<u8> {
     for _ in 0..n {
         let name: Vec<u8> = match cx.ch.weighted(&[5, 2, 1, 1]) {
             0 => cx.ch.one_of(&VAR_NAMES).as_bytes().to_vec(),
-            1 => cx.ch.one_of(&[&b"FCGI_OTHER"[..], b"fcgi_max_conns", b"", b"FCGI_MAX_CONN", b"FCGI_MAX_CONNSX"]).to_vec(),
+            // near misses of the well-known names: none of them may be answered
+            1 => cx.ch.one_of(&[&b"FCGI_OTHER"[..], b"fcgi_max_conns", b"", b"FCGI_MAX_CONN", b"FCGI_MAX_CONNSX", b" FCGI_MAX_CONNS", b"FCGI_MAX_REQS ",
+                b"FCGI_MAX_CONNS|FCGI_MAX_REQS", b"FCGI_MAX_CONNS | FCGI_MPXS_CONNS", b"0x3", b"0x7", b"0x1", b"7", b"FCGI_MAX_CONNS\0", b"\tFCGI_MPXS_CONNS", b"Fcgi_Max_Reqs"]).to_vec(),
             2 => b"FCGI_\xff\xfe".to_vec(),
             _ => { let l = cx.ch.range(0, 20); gen_bytes(cx, l) }
         };
